@@ -30,6 +30,7 @@ type SimReader struct {
 	shape       string
 	splitRune   bool
 	splitToken  bool
+	bounds      []int // offsets at which successful reads ended
 }
 
 type namedSimReader struct {
@@ -72,6 +73,7 @@ func (r *SimReader) Read(p []byte) (int, error) {
 	copy(p, r.data[r.off:r.off+n])
 	r.off += n
 	r.reads++
+	r.bounds = append(r.bounds, r.off)
 	if r.off >= limit {
 		if r.errAfter >= 0 {
 			if r.eofWithData {
